@@ -21,7 +21,7 @@ pub fn def() -> CheckDef {
         run,
         rule: "(every fifth case runs in 'setter-retry' mode: each setter call first meets one transient failure of the underlying file, is retried, and the value must then survive reopening like any other) seeded histories (<= 30 ops) of structure ops plus all setters with drawn values: CLSIDs (nil, all-ones, random), state words (0, 1, 0x80000000, u32::MAX, random), times before 1601, at 1601 +- 1 tick, before 1970, +-1..99 ns, exactly u64::MAX ticks and beyond; objects in every directory sector; the simulated clock (cfb_verif hook) is set to drawn instants - including before 1601, beyond year 60056 and jumping backwards - before create_storage and touch. Oracle: an independent i128 conversion (truncate toward 1970, clamp to 0..=u64::MAX ticks); entries and listings return exactly that immediately, in the full dump, and after reopen in both modes; streams report nil/zero; a new storage's times equal the sim-clock reading. Non-trivial: >= 1 successful setter or clocked creation; distinct = distinct (seam log, final image) hash.",
         assumptions: &["the sim clock is read through the cfg(cfb_verif) hook in Timestamp::now / CompoundFile::touch; with no override the real clock would be read"],
-        cpu_limit_s: 30,
+        cpu_limit_s: 300,
         fault_kinds: "F-CK clock jumps / skew (set_clock ops); every fifth case: one transient write/seek failure inside each setter call, followed by a retry",
         count_subruns: false,
         expect_probes: &["dir_sectors>=2"],
